@@ -495,7 +495,7 @@ def nesting_cases(facts):
             out.append((f"nest:cbor-{head.hex()}-depth:{d}", "application/c2pa", s, "store"))
             out.append((f"nest:cbor-{head.hex()}-depth-read:{d}", "application/c2pa", s, "read"))
     # many small boxes: the arena / Vec growth per input byte
-    for n in ((65536,) if facts.get("_quick", True) else (65536, 262144)):
+    for n in ((49152,) if facts.get("_quick", True) else (65536, 262144)):
         out.append((f"amplify:bmff-4-byte-boxes:{n}", "video/mp4", be32(16) + b"ftyp" + b"isom" + be32(0) + (be32(4) * n), "read"))
     out.append(("amplify:bmff-8-byte-boxes:8192", "video/mp4", be32(16) + b"ftyp" + b"isom" + be32(0) + ((be32(8) + b"free") * 8192), "read"))
     out.append(("amplify:png-empty-chunks:80000", "image/png", bytes([137, 80, 78, 71, 13, 10, 26, 10]) + (be32(0) + b"abcd" + be32(0)) * 80000, "read"))
